@@ -891,6 +891,190 @@ def rule_G1(ctx, rid='G1'):
 
 
 # ---------------------------------------------------------------------------
+# F9 arguments are not modified in place
+# ---------------------------------------------------------------------------
+
+ALIAS_CALLS = {'np.asarray', 'np.asanyarray', 'np.atleast_1d', 'np.atleast_2d',
+               'np.ascontiguousarray', 'np.ravel', 'np.reshape', 'np.squeeze', 'np.transpose',
+               'np.swapaxes', 'np.broadcast_to', 'np.expand_dims'}
+ALIAS_METHODS = {'reshape', 'ravel', 'view', 'squeeze', 'transpose', 'swapaxes'}
+INPLACE_METHODS = {'sort', 'fill', 'resize', 'put', 'itemset', 'partition', 'byteswap'}
+INPLACE_FUNCS = {'np.put', 'np.copyto', 'np.place', 'np.putmask', 'np.fill_diagonal'}
+
+
+def argument_mutations(func):
+    """[(ast node, parameter, text)]: statements of `func` that modify in place an array that
+    is (a view of) one of its parameters.  HDF5 groups (subscripts by string keys, `.attrs`)
+    are not arrays and are exempt."""
+    from .cfg import CFG
+    fn = func.node
+    cfg = CFG(fn) if not hasattr(func, 'module') else cfg_of_(func)
+    params = [p for p in func.params if p != func.self_name and p not in ('cls',)]
+    if not params:
+        return []
+    memo = {}
+
+    def alias_of(e, nid, depth=0):
+        """Parameter that expression `e` (evaluated at node nid) may alias, else None."""
+        if depth > 6:
+            return None
+        if isinstance(e, ast.Name):
+            key = (e.id, nid)
+            if key in memo:
+                return memo[key]
+            memo[key] = None
+            res = None
+            for d in cfg.defs_at(nid, e.id):
+                if d == cfg.entry.id:
+                    if e.id in params:
+                        res = e.id
+                    continue
+                dn = cfg.nodes[d]
+                if dn.kind == 'stmt' and isinstance(dn.ast, ast.Assign) and \
+                        len(dn.ast.targets) == 1 and isinstance(dn.ast.targets[0], ast.Name):
+                    r = alias_of(dn.ast.value, d, depth + 1)
+                    if r:
+                        res = r
+            memo[key] = res
+            return res
+        if isinstance(e, ast.Call):
+            d = dotted(e.func) or ''
+            if d in ALIAS_CALLS and e.args:
+                if any(k.arg == 'copy' and isinstance(k.value, ast.Constant) and
+                       k.value.value is True for k in e.keywords):
+                    return None
+                return alias_of(e.args[0], nid, depth + 1)
+            if isinstance(e.func, ast.Attribute) and e.func.attr in ALIAS_METHODS:
+                return alias_of(e.func.value, nid, depth + 1)
+            if isinstance(e.func, ast.Attribute) and e.func.attr == 'astype' and any(
+                    k.arg == 'copy' and isinstance(k.value, ast.Constant) and
+                    k.value.value is False for k in e.keywords):
+                return alias_of(e.func.value, nid, depth + 1)
+            return None
+        if isinstance(e, ast.Attribute) and e.attr == 'T':
+            return alias_of(e.value, nid, depth + 1)
+        if isinstance(e, ast.Subscript):
+            sl = e.slice
+            parts = sl.elts if isinstance(sl, ast.Tuple) else [sl]
+            basic = all(isinstance(x, ast.Slice) or
+                        (isinstance(x, ast.Constant) and (x.value is Ellipsis or x.value is None
+                                                          or isinstance(x.value, int))) or
+                        (isinstance(x, ast.Attribute) and dotted(x) == 'np.newaxis')
+                        for x in parts)
+            if basic:
+                return alias_of(e.value, nid, depth + 1)
+        return None
+
+    def string_keyed(t):
+        while isinstance(t, (ast.Subscript, ast.Attribute)):
+            if isinstance(t, ast.Attribute):
+                if t.attr == 'attrs':
+                    return True
+                t = t.value
+                continue
+            sl = t.slice
+            if isinstance(sl, (ast.JoinedStr,)) or (isinstance(sl, ast.Constant) and
+                                                    isinstance(sl.value, str)) or \
+                    (isinstance(sl, ast.Call) and isinstance(sl.func, ast.Attribute) and
+                     sl.func.attr == 'format'):
+                return True
+            t = t.value
+        return False
+
+    out = []
+    for n in cfg.nodes:
+        if n.kind != 'stmt' or n.ast is None:
+            continue
+        st = n.ast
+        tg = []
+        if isinstance(st, ast.Assign):
+            tg = [t for t in st.targets if isinstance(t, ast.Subscript)]
+        elif isinstance(st, ast.AugAssign):
+            tg = [st.target]
+        for t in tg:
+            if string_keyed(t):
+                continue
+            base = t
+            while isinstance(base, ast.Subscript):
+                base = base.value
+            if isinstance(base, (ast.Name, ast.Call, ast.Attribute)) and not (
+                    isinstance(base, ast.Attribute) and isinstance(base.value, ast.Name) and
+                    base.value.id == func.self_name):
+                p = alias_of(base, n.id)
+                if p and not (isinstance(t, ast.Name) and isinstance(st, ast.Assign)):
+                    out.append((st, p, '`%s` writes into %s' % (
+                        unparse(st)[:50], 'the argument %r itself' % p if
+                        isinstance(base, ast.Name) and base.id == p else
+                        'a view of the argument %r' % p)))
+        for c in ast.walk(st):
+            if isinstance(c, ast.Call):
+                d = dotted(c.func) or ''
+                if isinstance(c.func, ast.Attribute) and c.func.attr in INPLACE_METHODS and \
+                        not c.args or (isinstance(c.func, ast.Attribute) and
+                                       c.func.attr in ('fill', 'put', 'itemset', 'resize')):
+                    if isinstance(c.func, ast.Attribute):
+                        p = alias_of(c.func.value, n.id)
+                        if p and c.func.attr in INPLACE_METHODS:
+                            out.append((st, p, '`%s` changes the argument %r in place' % (
+                                unparse(c)[:40], p)))
+                if (d in INPLACE_FUNCS or d.endswith('.shuffle')) and c.args:
+                    p = alias_of(c.args[0], n.id)
+                    if p:
+                        out.append((st, p, '`%s` changes the argument %r in place' % (
+                            unparse(c)[:40], p)))
+                for k in c.keywords:
+                    if k.arg == 'out':
+                        p = alias_of(k.value, n.id)
+                        if p:
+                            out.append((st, p, '`%s` stores its result into the argument %r'
+                                        % (unparse(c)[:40], p)))
+    return out
+
+
+def cfg_of_(func):
+    from .cfg import cfg_of
+    return cfg_of(func)
+
+
+# in-place writes to an argument that are part of the design (confirmed by reading)
+F9_ALLOWED = {
+    ('Sampler.sample_shell', 'shell_t'): 'consumed transfer candidates are marked (-1) in the '
+                                         'caller\'s array on purpose: rule A5 relies on it',
+}
+
+
+def rule_F9(ctx, rid='F9', classes=None):
+    ctx.rule(rid, 'argument isolation: no function of the package modifies in place an array '
+             'that is (a view of) one of its parameters -- stored points, construction points '
+             'and user arrays handed to transform / contains / compute stay what they were')
+    prog = ctx.program
+    n = 0
+    for f in sorted(prog.functions.values(), key=lambda x: x.qualname):
+        if classes is not None and (f.cls is None or f.cls.name not in classes):
+            continue
+        if not [p for p in f.params if p != f.self_name]:
+            continue
+        muts = [m for m in argument_mutations(f) if (f.qualname, m[1]) not in F9_ALLOWED]
+        n += 1
+        ctx.ob(rid, '%s:arguments-untouched' % f.qualname, not muts,
+               f.where(muts[0][0]) if muts else f.where(),
+               'no parameter is modified in place' if not muts else
+               muts[0][2] + ': the caller\'s array (e.g. stored or construction points) is '
+               'changed behind its back')
+    bad, good = _fixture_funcs('F9_bad.py'), _fixture_funcs('F9_good.py')
+    for fn in bad + good:
+        fn.self_name = 'self'
+    nb = [m for fn in bad for m in argument_mutations(fn)]
+    ng = [m for fn in good for m in argument_mutations(fn)]
+    if len(nb) < 3 or ng:
+        raise AnalysisError('F9 fixture self-check failed (bad fired %d, good fired %d: %s)'
+                            % (len(nb), len(ng), [m[2] for m in ng]))
+    ctx.ob(rid, 'fixture:F9', True, 'fixtures/F9_bad.py', 'rule fires on the bad fixture (%d '
+           'sites) and is silent on the good one' % len(nb))
+    return n
+
+
+# ---------------------------------------------------------------------------
 # F5 ordered map
 # ---------------------------------------------------------------------------
 
